@@ -1,8 +1,13 @@
 #!/usr/bin/env python3
-"""Apply each seeded change to /repo's working tree, run the quick check of its property, undo it; record what was caught."""
+"""Apply each seeded change to a tree, run the quick check of its property, undo it; record what was caught.
+
+usage: seedrun.py [--tier quick|thorough] [--out results.json] [ids or properties ...]
+The tree is $VERIF_REPO (default /repo); with SEEDRUN_SCRATCH=<dir> a scratch clone of the tree is
+made there first (and removed afterwards) so that /repo itself is never touched."""
 import json, os, subprocess, sys, shutil, time, glob
-ROOT = "/verif"
+ROOT = os.path.dirname(os.path.dirname(os.path.abspath(__file__)))
 SEED = os.path.join(ROOT, "seeded")
+GOENV = "GOFLAGS=-mod=mod GOPROXY=off GOSUMDB=off GOTOOLCHAIN=local"
 
 
 def sh(cmd, **kw):
@@ -10,35 +15,61 @@ def sh(cmd, **kw):
 
 
 def main():
-    only = sys.argv[1:]
+    args = sys.argv[1:]
+    tier = "quick"
     res_path = os.path.join(SEED, "results.json")
+    if "--tier" in args:
+        i = args.index("--tier"); tier = args[i + 1]; del args[i:i + 2]
+    if "--out" in args:
+        i = args.index("--out"); res_path = os.path.abspath(args[i + 1]); del args[i:i + 2]
+    only = args
+    repo = os.environ.get("VERIF_REPO", "/repo")
+    scratch = os.environ.get("SEEDRUN_SCRATCH")
+    if scratch:
+        shutil.rmtree(scratch, ignore_errors=True)
+        r = sh("git clone -q %s %s" % (repo, scratch))
+        assert r.returncode == 0, r.stderr
+        repo = scratch
+    env = dict(os.environ, VERIF_REPO=repo)
     results = json.load(open(res_path)) if os.path.exists(res_path) else {}
-    for d in sorted(glob.glob(os.path.join(SEED, "C*-m*"))):
-        sid = os.path.basename(d)
-        prop = sid.split("-")[0]
-        if only and sid not in only and prop not in only:
-            continue
-        assert sh("git -C /repo status --porcelain").stdout.strip() == "", "repo not clean"
-        patch = os.path.join(d, "patch.diff")
-        r = sh("git -C /repo apply --whitespace=nowarn %s" % patch)
-        if r.returncode != 0:
-            r = sh("git -C /repo apply --3way --whitespace=nowarn %s" % patch)
-            if r.returncode != 0:
-                sh("git -C /repo checkout -- . ; git -C /repo reset -q")
-                results[sid] = dict(applied=False, note=r.stderr[-300:])
-                print(sid, "DOES NOT APPLY")
+    try:
+        for d in sorted(glob.glob(os.path.join(SEED, "C*-*"))):
+            sid = os.path.basename(d)
+            if not os.path.exists(os.path.join(d, "patch.diff")):
                 continue
-            sh("git -C /repo reset -q")
-        b = sh("cd /repo && GOFLAGS=-mod=mod GOPROXY=off GOSUMDB=off GOTOOLCHAIN=local go build ./... 2>&1")
-        t0 = time.time()
-        c = sh("cd %s && python3 bin/check %s quick" % (ROOT, prop))
-        viol = [l for l in c.stdout.splitlines() if l.startswith("VIOLATION")]
-        why = [l.strip()[:300] for l in c.stdout.splitlines() if l.strip().startswith("->")]
-        results[sid] = dict(applied=True, builds=b.returncode == 0, property=prop, exit=c.returncode, caught=c.returncode == 1 and bool(viol),
-                            violations=viol[:4], why=why[:4], secs=round(time.time() - t0, 1))
-        print(sid, "caught" if results[sid]["caught"] else "MISSED", results[sid]["secs"], (why or [""])[0][:160], flush=True)
-        sh("git -C /repo checkout -- . ; git -C /repo clean -fdq")
-        json.dump(results, open(res_path, "w"), indent=1, sort_keys=True)
+            meta = {}
+            try:
+                meta = json.load(open(os.path.join(d, "meta.json")))
+            except Exception:
+                pass
+            prop = meta.get("property") or sid.split("-")[0]
+            if only and sid not in only and prop not in only:
+                continue
+            assert sh("git -C %s status --porcelain" % repo).stdout.strip() == "", "tree not clean"
+            patch = os.path.join(d, "patch.diff")
+            r = sh("git -C %s apply --whitespace=nowarn %s" % (repo, patch))
+            if r.returncode != 0:
+                r = sh("git -C %s apply --3way --whitespace=nowarn %s" % (repo, patch))
+                if r.returncode != 0:
+                    sh("git -C %s checkout -- . ; git -C %s reset -q" % (repo, repo))
+                    results[sid] = dict(applied=False, note=r.stderr[-300:])
+                    print(sid, "DOES NOT APPLY", flush=True)
+                    continue
+                sh("git -C %s reset -q" % repo)
+            b = sh("cd %s && %s go build ./... 2>&1" % (repo, GOENV))
+            t0 = time.time()
+            c = sh("cd %s && python3 bin/check %s %s" % (ROOT, prop, tier), env=env)
+            viol = [l for l in c.stdout.splitlines() if l.startswith("VIOLATION")]
+            why = [l.strip()[:300] for l in c.stderr.splitlines() if l.strip().startswith("->")]
+            results[sid] = dict(applied=True, builds=b.returncode == 0, property=prop, exit=c.returncode, caught=c.returncode == 1 and bool(viol),
+                                violations=viol[:4], why=why[:4], secs=round(time.time() - t0, 1), tier=tier,
+                                concrete=any("no-failing-input-found" not in v for v in viol))
+            print(sid, "caught" if results[sid]["caught"] else "MISSED", results[sid]["secs"], (why or [""])[0][:200], flush=True)
+            sh("git -C %s checkout -- . ; git -C %s clean -fdq" % (repo, repo))
+            json.dump(results, open(res_path, "w"), indent=1, sort_keys=True)
+    finally:
+        if scratch:
+            shutil.rmtree(scratch, ignore_errors=True)
     print(sum(1 for v in results.values() if v.get("caught")), "caught of", len(results))
 
 
